@@ -494,8 +494,9 @@ def _validate_event_connectivity(
             f"The following events are produced but never consumed: {names}"
         )
 
-    return (
-        InputRequiredEvent in produced_events or HumanResponseEvent in consumed_events
+    # subclasses count: a custom InputRequiredEvent/HumanResponseEvent is still HITL
+    return any(issubclass(x, InputRequiredEvent) for x in produced_events) or any(
+        issubclass(x, HumanResponseEvent) for x in consumed_events
     )
 
 
